@@ -131,6 +131,11 @@ def run_once(
     full_env = dict(os.environ)
     if env:
         full_env.update({k: str(v) for k, v in env.items()})
+    # TLC creates an (empty) tlc-<n> directory in java.io.tmpdir on every start and leaves it there: keep
+    # them inside this run's scratch directory, which is removed at exit
+    jopts = full_env.get("JAVA_TOOL_OPTIONS", "")
+    if "java.io.tmpdir" not in jopts:
+        full_env["JAVA_TOOL_OPTIONS"] = (jopts + " -Djava.io.tmpdir=" + meta).strip()
     t0 = time.time()
     try:
         proc = subprocess.run(
